@@ -17,3 +17,33 @@ package list
 //@ method (Set).Exists
 //@ assigns nothing
 //@ ensures [exists] ok == self.Mem[t]
+
+// ---- ConcurrentSets over sync.Map (C20, C04): each of Put / Exists / Remove is one atomic step -----------------------
+// Object invariant: the abstract membership Mem is the sync.Map's domain. The methods are verified `linearizable`
+// (under interference, postcondition relative to the state at their single atomic step) and refine the Set contract.
+
+//@ func (*ConcurrentSets).Put
+//@ property C20 C04
+//@ implements Set
+//@ linearizable
+//@ shared r.Mem, r.cm.SDom, r.cm.SVal
+//@ object-invariant [rep] forall(k, string, r.Mem[k] == r.cm.SDom[toany(k)])
+//@ ghost after call Store: r.Mem = store(r.Mem, s, true)
+
+//@ func (*ConcurrentSets).Remove
+//@ property C20 C04
+//@ implements Set
+//@ linearizable
+//@ shared r.Mem, r.cm.SDom, r.cm.SVal
+//@ object-invariant [rep] forall(k, string, r.Mem[k] == r.cm.SDom[toany(k)])
+//@ ghost after call Delete: r.Mem = store(r.Mem, s, false)
+
+//@ func (*ConcurrentSets).Exists
+//@ property C20 C04
+//@ implements Set
+//@ linearizable
+//@ shared r.Mem, r.cm.SDom, r.cm.SVal
+//@ object-invariant [rep] forall(k, string, r.Mem[k] == r.cm.SDom[toany(k)])
+
+// The generic variant gcset[T] (generic_concurrent_set.go) has the same three single-step methods, but it is not
+// instantiated anywhere in the module, so the SSA program contains no body for it: it is outside what this check covers.
